@@ -635,12 +635,13 @@ def expected_line(m, op, val):
         if x and x["owner"] == "caller" and not x.get("dtored") and s not in m.stale and x["id"] not in seen:
             seen.add(x["id"])
             cxx += 1
-    if m.s in ("N", "C"):
-        cxx += 2  # the std::string object and its character buffer
-    if m.s in ("E", "F"):
-        cxx += 1  # an empty std::string owns no character buffer
+    # while a fetched string / vector waits to be copied out, how many blocks the wrapper holds for it is its own
+    # business: at least one when the caller owns the C++ object, any number otherwise; exact again once it is released
+    pending = m.s is not None or m.v is not None
+    if m.s in ("N", "C", "E", "F"):
+        cxx += 1
     if m.v == "f":
-        cxx += 2  # the std::vector object and its element buffer
+        cxx += 1
     mal = 1 if m.a == "n" else 0
     pool = 1 if m.a == "p" else 0
     hs = []
@@ -656,8 +657,28 @@ def expected_line(m, op, val):
     sfield = "s=%d/%d" % (1 if m.s else 0, sidt[m.s] if m.s else 0)
     afield = "a=%d/%d" % (1 if m.a else 0, 1 if m.a in ("n", "p") else 0)
     vfield = "v=%d/%d" % (1 if m.v else 0, 1 if m.v else 0)
-    return "ST %s val=%d live=%s net=%d dd=0 libfree=0 pool=%d cxx=%d mal=%d %s %s %s %s" % (
-        op, val, live, m.ctor - m.dtor, pool, cxx, mal, " ".join(hs), sfield, afield, vfield)
+    return "ST %s val=%d live=%s net=%d dd=0 libfree=0 pool=%d cxx%s%d mal=%d %s %s %s %s" % (
+        op, val, live, m.ctor - m.dtor, pool, ">=" if pending else "=", cxx, mal, " ".join(hs), sfield, afield, vfield)
+
+
+def line_matches(got, want):
+    """Token-wise equality; a 'cxx>=N' expectation accepts any 'cxx=K' with K >= N."""
+    if got == want:
+        return True
+    g, w = got.split(" "), want.split(" ")
+    if len(g) != len(w):
+        return False
+    for a, b in zip(g, w):
+        if a == b:
+            continue
+        if b.startswith("cxx>=") and a.startswith("cxx=") and a[4:].lstrip("-").isdigit() and int(a[4:]) >= int(b[5:]):
+            continue
+        return False
+    return True
+
+
+def trace_matches(got, want):
+    return len(got) == len(want) and all(line_matches(g, w) for g, w in zip(got, want))
 
 
 # ---------------------------------------------------------------- the Python front end
@@ -1031,12 +1052,12 @@ def run(ctx):
     nbad = 0
     for hist, (rc, got, se) in zip(allh, res):
         _, want = model_trace(hist)
-        if rc != 0 or got != want:
+        if rc != 0 or not trace_matches(got, want):
             nbad += 1
             diff = ""
             for i, w in enumerate(want):
                 g = got[i] if i < len(got) else "(missing)"
-                if g != w:
+                if not line_matches(g, w):
                     diff = "after %s:\n      got      %s\n      expected %s" % (" ".join(hist[:i]) or "(start)", g, w)
                     break
             ctx.violation("protocol %s" % key_for(hist, diff), "history %s: %s%s" % (" ".join(hist), diff or "exit %d" % rc, ("  stderr: " + se[-200:]) if rc else ""),
@@ -1091,11 +1112,11 @@ def run(ctx):
     fres = isolate.pmap(run_history, [(exes["fplain"], h, False) for h in fh], ctx.workers, chunksize=16)
     for hist, (rc, got, se) in zip(fh, fres):
         _, want = f_model_trace(hist)
-        if rc != 0 or got != want:
+        if rc != 0 or not trace_matches(got, want):
             diff = ""
             for i, w in enumerate(want):
                 g = got[i] if i < len(got) else "(missing)"
-                if g != w:
+                if not line_matches(g, w):
                     diff = "after %s:\n      got      %s\n      expected %s" % (" ".join(hist[:i + 0]) or "(start)", g, w)
                     break
             ctx.violation("fortran protocol %s" % key_for(hist, diff), "Fortran history %s: %s%s" % (" ".join(hist), diff or "exit %d" % rc, ("  stderr: " + se[-200:]) if rc else ""),
